@@ -219,6 +219,10 @@ def _difference_units(unit1, unit2=None):
             return 1, unit1
         elif s2 in s1 and s1.startswith("delta_"):
             return 1, unit2
+        elif unit1.base_offset == 0.0 and unit2.base_offset == 0.0:
+            # neither scale has a zero-point offset (K, mK, R, ...): an
+            # ordinary difference, the second operand has been rescaled
+            return 1, unit1
         else:
             raise InvalidUnitOperation(
                 "Quantities with units of Fahrenheit or Celsius "
